@@ -116,7 +116,7 @@ def _requirements(tier):
         "dir:backward": 10 * k, "dir:forward": 30 * k,
         "iteration:reused-listeners": 60 * k,
         "iteration:second-orbit": 20 * k,
-        "iteration:starts-from-event-state": 10 * k,
+        "iteration:starts-from-event-state": 10 * k, "iteration:ephem-later-start": 6 * k,
         "first-step-prev-checked": 100 * k,
         "step:multi-event": 20 * k,
         "step:multi-event-backward": 3 * k,
@@ -997,6 +997,38 @@ def run_case(ctx, job, idx, rng, st):
                        dict(env5.witness, n_stale=len(stale), first=stale[:5], n_stream=len(stream5)),
                        f"{len(stale)} of {len(stream5)} elements of a stream started from an event state carry that state's event object")
             check_stream(ctx, st, env5, stream5, log5, specs, stats)
+
+    # ------------------------------------------------------------------ iteration 6: ephemeris, own sampling, from a later start
+    # (the recorded points before the start are no samples of this iteration: nothing may be reported with respect to them)
+    if prop == "Ephem" and ephem is not None:
+        k6 = rng.randint(3, max(4, int(span // estep) // 2))
+        off6 = rng.choice([0, 0, rng.randrange(1, estep)])
+        start6 = date + timedelta(seconds=k6 * estep + off6)
+        stop6 = rng.choice([None, date + timedelta(seconds=int(span) - rng.randrange(0, estep))])
+        env6 = mkenv(+1, "6:ephemeris-own-sampling-from-a-later-start")
+        kw6 = dict(start=start6) if stop6 is None else dict(start=start6, stop=stop6)
+        env6.witness["call"] = {k_: str(v_) for k_, v_ in kw6.items()}
+        env6.witness["mode"] = "native-step"
+        st["log"].clear()
+        st["listen_depth"] = 0
+        st.pop("cur_rec", None)
+        try:
+            stream6 = list(ephem.iter(listeners=listeners, **kw6))
+        except Exception as exc:
+            lib_exception(ctx, "C10/iteration-raises-Ephem", env6, exc, "iteration of an ephemeris from a later start")
+            stream6 = None
+        log6 = list(st["log"])
+        st["log"].clear()
+        if stream6:
+            ctx.count("dir:forward")
+            ctx.count("iteration:reused-listeners")
+            ctx.count("iteration:ephem-later-start")
+            first6 = t_us(stream6[0].date, d0)
+            early = [str(x.date) for x in stream6 if t_us(x.date, d0) < t_us(start6, d0)]
+            ctx.expect(not early and stream6[0].event is None, "C10/event-before-the-first-sample-of-an-ephemeris-iteration",
+                       dict(env6.witness, early=early[:5], first_is_event=stream6[0].event is not None, first=str(stream6[0].date)),
+                       "an ephemeris iterated from a later start yields an element dated before the start, or an event before its first sample")
+            check_stream(ctx, st, env6, stream6, log6, specs, stats)
 
     # ------------------------------------------------------------------ station.visibility stream
     stations = [s.topo for s in specs if s.topo is not None]
